@@ -70,6 +70,18 @@ func (g *jgen) scalar() string {
 		if r.Chance(1, 3) {
 			bits = math.Float64bits([]float64{0, 1, -1, 3.14159, 1e300, 5e-324, 0.1}[r.Intn(7)])
 		}
+		if r.Chance(1, 4) {
+			// a double that came from a FLOAT column / float expression (JSON_OBJECT('x', float_col)): exactly
+			// representable in 32 bits, but its text must still denote THIS double (0.10000000149011612, not 0.1)
+			f := math.Float32frombits(uint32(r.U64()))
+			for math.IsNaN(float64(f)) || math.IsInf(float64(f), 0) {
+				f = math.Float32frombits(uint32(r.U64()))
+			}
+			if r.Bool() {
+				f = []float32{0.1, 0.2, 3.3, 1e-3, 16777217, 1.1e10, -0.7}[r.Intn(7)]
+			}
+			bits = math.Float64bits(float64(f))
+		}
 		txt := strconv.AppendFloat(nil, math.Float64frombits(bits), 'E', -1, 64)
 		g.f64e = append(g.f64e, fmt.Sprintf("%d:%s", bits, hx(txt)))
 		return fmt.Sprintf("d:%d", bits)
